@@ -33,8 +33,11 @@ static void lwe_part(bool thorough) {
         if (pv == 1 && !(n == 500 || n == 630 || n == 8 || n == 1)) continue;
         LweParams *P = new_LweParams(n, amin, amax);
         int nkeys = thorough ? 4 : 2;
+        // one key object, re-generated in place for every further key (after it has been used to decrypt): "for every key"
+        // includes the second key an object holds
+        LweKey *K = new_LweKey(P);
         for (int kk = 0; kk < nkeys; kk++) {
-            LweKey *K = new_LweKey(P); lweKeyGen(K);
+            lweKeyGen(K);
             LweSample *c = new_LweSample(P);
             for (int32_t M: Ms) {
                 double amax = 1.0 / (20.0 * M);
@@ -55,8 +58,9 @@ static void lwe_part(bool thorough) {
                     char cell[96]; snprintf(cell, sizeof cell, "lwe:n=%d:%s:M=%d:alpha=%s", n, pv ? "gate-set-bounds" : "tiny-bounds", M, acls_name[ac]); out.cell(cell);
                 }
             }
-            delete_LweSample(c); delete_LweKey(K);
+            delete_LweSample(c);
         }
+        delete_LweKey(K);
         // noiseless trivial samples decrypt to their message under several unrelated keys
         LweSample *t = new_LweSample(P);
         for (int rep = 0; rep < 20; rep++) {
@@ -80,9 +84,11 @@ static void tlwe_part(int k, bool thorough) {
     std::vector<int32_t> Ms = {2, 3, 4, 8, 16, 100, 1024, 1 << 16};
     TorusPolynomial *msg = new_TorusPolynomial(N), *dec = new_TorusPolynomial(N);
     TLweSample *c = new_TLweSample(P);
-    int nkeys = thorough ? 3 : 1;
+    int nkeys = thorough ? 3 : 2;
+    TLweKey *K = new_TLweKey(P);     // one key object, re-generated in place after use
     for (int kk = 0; kk < nkeys; kk++) {
-        TLweKey *K = new_TLweKey(P); tLweKeyGen(K);
+        tLweKeyGen(K);
+        if (kk) out.cell("tlwe:key-object-regenerated-in-place");
         for (int32_t M: Ms) {
             double amax = 1.0 / (20.0 * M);
             for (int ac = 0; ac < 5; ac++) {
@@ -117,8 +123,8 @@ static void tlwe_part(int k, bool thorough) {
                 char cell[96]; snprintf(cell, sizeof cell, "tlwe:k=%d:M=%d:alpha=%s", k, M, acls_name[ac]); out.cell(cell);
             }
         }
-        delete_TLweKey(K);
     }
+    delete_TLweKey(K);
     // trivial TLWE samples under unrelated keys
     for (int rep = 0; rep < 6; rep++) {
         int32_t M = Ms[rep % Ms.size()];
@@ -146,6 +152,7 @@ static void tgsw_part(int k, int l, int Bgbit, bool thorough) {
     int Bg = 1 << Bgbit;
     for (int lgM = 1; lgM <= Bgbit; lgM += (thorough ? 1 : (Bgbit > 4 ? 3 : 1))) {
         int32_t M = 1 << lgM;
+        if (lgM > 1) { tGswKeyGen(K); out.cell("tgsw:key-object-regenerated-in-place"); }     // the same key object holds its next key
         // row noise is multiplied by the digit Bg/M of 1/M: (Bg/M) alpha <= 1/(20 M)
         double amax = 1.0 / (20.0 * Bg);
         for (int ac = 0; ac < 5; ac++) {
